@@ -556,6 +556,61 @@ def main(run):
     run.extra_cov["case_kinds"] = {}
     for c in cases:
         run.extra_cov["case_kinds"][c["kind"]] = run.extra_cov["case_kinds"].get(c["kind"], 0) + 1
+    # -------- extreme magnitudes (oracle only): finite values near the top of the binary64 range, of one or of both signs,
+    # denormals, and mixed scales.  The order type is what the statement quantifies over; the Coq models work on integers,
+    # which cannot represent the rounding / overflow of the float mean in `median`, so these populations are judged by the
+    # peeling oracle alone (both procedures, every k, both flags).  Witness of the repaired defect ba2fc87 runs first.
+    def extreme_case(w, vals, ks=None):
+        n = len(vals)
+        C = fitcls(w)
+        pop = []
+        for v in vals:
+            x = Ind(v)
+            x.fitness = C()
+            x.fitness.values = tuple(float(t) for t in v)
+            pop.append(x)
+        idmap = {id(x): i for i, x in enumerate(pop)}
+        ws = [tuple(x.fitness.wvalues) for x in pop]
+        base_case = {"kind": "sort-extreme", "weights": list(w), "values": [[float(t).hex() for t in v] for v in vals]}
+        run.note_case(base_case, n >= 2)
+        run.extra_cov["extreme_magnitude_populations"] = run.extra_cov.get("extreme_magnitude_populations", 0) + 1
+        for k in (ks if ks is not None else sorted({0, 1, max(1, n // 2), n, n + 1})):
+            for ffo in (False, True):
+                case = dict(base_case, k=k, first_front_only=ffo)
+                exp = o_expected(ws, k, ffo)
+                for name, fn in (("sortNondominated", tools.sortNondominated), ("sortLogNondominated", tools.sortLogNondominated)):
+                    if name == "sortLogNondominated" and len(w) < 2:
+                        continue
+                    st, r = budgeted(fn, pop, k, ffo, budget=2.0)
+                    if st != "ok":
+                        run.oracle_violation("%s does not return fronts on finite fitness values of extreme magnitude (%s)"
+                                             % (name, st if st == "timeout" else r), case)
+                        return
+                    flat = isinstance(r, list) and len(r) > 0 and all(hasattr(e, "fitness") for e in r)
+                    c = canon([r] if flat else r, idmap, case, name)
+                    if c is not None and [sorted(f) for f in c] != exp:
+                        run.oracle_violation("%s: fronts differ from dominance depth by peeling (extreme magnitudes)" % name, case, observed=c)
+                        return
+
+    BIG = [1e308, 1.7e308, 9e307, 1.7976931348623157e308, -1e308, -1.7e308, -9e307, -1.7976931348623157e308]
+    extreme_case((-1.0, -1.0, -1.0), [(1e308, 1.7e308, 0.0), (1.7e308, 1e308, 1.0), (1e308, 1.7e308, 2.0), (1.7e308, 1e308, 3.0),
+                                      (1.2e308, 1.3e308, 4.0), (1.3e308, 1.2e308, 0.5)])                # ba2fc87: same sign, sum overflows
+    extreme_case((-1.0, -1.0, -1.0), [(-1e308, 1e308, 0.0), (1e308, -1e308, 1.0), (-1e308, 1e308, 2.0), (1e308, -1e308, 3.0),
+                                      (-1.5e308, 1.5e308, 1.5), (1.5e308, -1.5e308, 2.5)])              # opposite signs: difference overflows
+    for _ in range(run.scale(60, 600)):
+        m = rng.choice([2, 3, 3, 4])
+        n = rng.randint(2, 9)
+        style = rng.choice(["big", "big", "mixed", "tiny"])
+        if style == "big":
+            pool = BIG
+        elif style == "mixed":
+            pool = BIG + [0.0, 1.0, -1.0, 1e-300, -1e-300, 2.0 ** 53, -(2.0 ** 53)]
+        else:
+            pool = [5e-324, -5e-324, 1e-320, -1e-320, 2.2250738585072014e-308, -2.2250738585072014e-308, 0.0]
+        small = rng.sample(pool, min(len(pool), rng.randint(2, 4)))
+        vals = [tuple(rng.choice(small) for _ in range(m)) for _ in range(n)]
+        extreme_case(tuple(rng.choice([-1.0, 1.0]) for _ in range(m)), vals)
+
     t_gen = time.time()
     run.correspond("all", "C04", terms, cases, shard=run.scale(300, 400))
     run.extra_cov["phase_seconds"] = {"build_props": round(t_built - t_start, 1), "implementation_and_oracle": round(t_gen - t_built, 1),
